@@ -95,7 +95,7 @@ pub fn build_chunk(id: usize, types: &[Ty]) -> Chunk {
         let e = doc.expr(t);
         match level {
             Level::Iface => {
-                let name = format!("f{k}");
+                let name = format!("h{k}");
                 doc.func_raw(&format!("  {name}: func(x: {e}) -> {e};"));
                 funcs.push(Func {
                     k,
